@@ -55,6 +55,33 @@ theorem suffix_writes (c : Win) (all : List UInt8) (chunks : List (List UInt8)) 
     have := ih (c.write p) (all ++ p) (suffix_write c all p h)
     simpa [Win.writes, List.append_assoc] using this
 
+theorem newlines_writes (c : Win) (chunks : List (List UInt8)) :
+    (c.writes chunks).newlinesSeen = c.newlinesSeen + countNL chunks.flatten := by
+  induction chunks generalizing c with
+  | nil => simp [Win.writes, countNL]
+  | cons p ps ih =>
+    have := ih (c.write p)
+    simp only [Win.writes, List.foldl_cons] at this ⊢
+    rw [this]
+    have hw : (c.write p).newlinesSeen = c.newlinesSeen + countNL p := by
+      unfold Win.write; split <;> rfl
+    simp [hw, countNL, List.count_append, Nat.add_assoc]
+
+/-- what the window buffer holds depends only on the bytes read, not on how the reads were cut -/
+theorem writes_segmentation_independent (a b : List (List UInt8)) (h : a.flatten = b.flatten) :
+    Win.writes {} a = Win.writes {} b := by
+  have ha := suffix_writes {} [] a (by simp [Win.IsSuffixOf])
+  have hb := suffix_writes {} [] b (by simp [Win.IsSuffixOf])
+  have na := newlines_writes {} a
+  have nb := newlines_writes {} b
+  simp only [List.nil_append] at ha hb
+  obtain ⟨ca, wa⟩ := ha
+  obtain ⟨cb, wb⟩ := hb
+  cases hA : Win.writes {} a
+  cases hB : Win.writes {} b
+  simp only [hA, hB] at ca wa cb wb na nb
+  simp [ca, cb, wa, wb, na, nb, h]
+
 /-- no slice of `lineAndColumn` / `offendingLine` / `describeSyntaxError` is out of range -/
 theorem position_in_range (c : Win) (err : DecodeErr) (pos : Pos) (h : c.Inv)
     (hp : position c err = some pos) :
